@@ -72,6 +72,10 @@ ALL_HOSTILE = (["type:" + n for n in H_TYPES] + ["trait:" + n for n in H_TRAITS 
 def cases(draw, tier="quick"):
     spec = draw(S.enum_specs(PROFILE))
     cfg = draw(S.configs(spec, p_on=[0.2, 0.55, 0.55, 0.85], p_vis=0.0))
+    # a struct named like one of the hostile items would be the *user's* name clash (same namespace, same module)
+    taken = set(H_TYPES) | set(H_TRAITS) | set(H_MODS) | set(H_FNS)
+    for f in cfg["feats"]:
+        f["params"] = [p_ for p_ in f["params"] if not (p_[0] == "struct_name" and p_[1] in taken)]
     ctxs = draw(st.lists(st.sampled_from(["hostile", "no_prelude", "fn_body", "no_std_lib", "hostile_all", "hostile"]),
                          min_size=2, max_size=4, unique=True))
     hostile = draw(st.lists(st.sampled_from(ALL_HOSTILE), min_size=1, max_size=12, unique=True))
